@@ -49,8 +49,8 @@ def generate(rng, heap_bytes, gc):
         a = rng.choice([0, 2, 3, 9])
         b = rng.choice([0, 1, 100, 1000, 1022, 4093, 8192, 40000, 300000])
     elif mode == 2:
-        a = rng.randrange(9)
-        b = rng.choice([0, 1, 3]) if a < 7 else rng.randrange(0, 400)
+        a = rng.randrange(7)
+        b = rng.choice([0, 1, 3])
     else:
         a = rng.choice([1, 5, 20])
         b = rng.choice([0, 1, 64, 1000, 5000])
